@@ -463,7 +463,7 @@ where
     pub fn save(&mut self, trailer: &mut Trailer) -> Result<&[u8]> {
         // writing the trailer generates another id for the info dictionary
         trailer.size = (self.refs.len() + 2) as _;
-        let trailer_dict = trailer.to_dict(self)?;
+        let mut trailer_dict = trailer.to_dict(self)?;
         
         let mut changes: Vec<_> = self.changes.iter().collect();
         changes.sort_unstable_by_key(|&(id, _)| id);
@@ -479,6 +479,11 @@ where
 
         // allocate the id of the xref stream only now: an object that fails to serialize must not leave a promise behind
         let xref_promise = self.promise::<Stream<XRefInfo>>();
+        // the xref stream is the last object of the file: /Size is its number plus one. (The estimate above is one too
+        // large when there is no info dictionary; the undefined slot that leaves in the table of whoever reads the file
+        // back makes the next save fail.)
+        trailer.size = (xref_promise.get_inner().id + 1) as _;
+        trailer_dict.insert("Size", trailer.size);
         let xref_pos = self.backend.len() - self.start_offset;
         self.refs.set(xref_promise.get_inner().id, XRef::Raw { pos: xref_pos, gen_nr: 0 });
         // only write up to the xref stream obj id
